@@ -58,13 +58,20 @@ def strategy(tier):
         so = draw(st.sampled_from(SCHEME_ORDERS))
         on = draw(st.sampled_from(X.state_names(model)))
         pn = draw(st.sampled_from(X.param_names(model))) if model["params"] else None
-        return {"model": model, "points": pts, "backend": backend, "rhs_order": ro, "scheme_order": so, "override": [on, pn, draw(st.sampled_from([-7.25, 0.5, 3e3]))], "dt": 0.125, "remove_unused": draw(st.sampled_from([False, False, True]))}
+        # a parameter shared by two components may be listed (with the same value) in a block of each: one
+        # parameter, one slot
+        relist = None
+        if model["params"] and draw(st.integers(0, 3)) == 0:
+            q = draw(st.sampled_from(model["params"]))
+            comps = sorted({c for x in model["states"] + model["params"] + model["assigns"] for c in x["comps"] if c and c not in q["comps"]})
+            relist = {"name": q["name"], "comp": draw(st.sampled_from(comps + ["Listed again"])), "where": draw(st.sampled_from(["first", "last"]))}
+        return {"model": model, "points": pts, "backend": backend, "rhs_order": ro, "scheme_order": so, "override": [on, pn, draw(st.sampled_from([-7.25, 0.5, 3e3]))], "dt": 0.125, "remove_unused": draw(st.sampled_from([False, False, True])), "relist": relist}
 
     return _s()
 
 
 def sample_view(case):
-    return {"text": X.render_model(case["model"]), "backend": case["backend"], "rhs_order": case["rhs_order"], "scheme_order": case["scheme_order"]}
+    return {"text": model_text(case), "backend": case["backend"], "rhs_order": case["rhs_order"], "scheme_order": case["scheme_order"]}
 
 
 def build(ode, backend, ro, so, remove_unused=False):
@@ -100,9 +107,20 @@ def build(ode, backend, ro, so, remove_unused=False):
     return "\n".join(comp)
 
 
-def check_case(case):
+def model_text(case):
     model = case["model"]
     text = X.render_model(model)
+    r = case.get("relist")
+    if r:
+        q = next(p for p in model["params"] if p["name"] == r["name"])
+        line = f'parameters("{r["comp"]}", {q["name"]}={X.render(q["value"])})'
+        text = line + "\n\n" + text if r["where"] == "first" else text.rstrip("\n") + "\n\n" + line + "\n"
+    return text
+
+
+def check_case(case):
+    model = case["model"]
+    text = model_text(case)
     ode = oracle.load_or_skip(text)
     backend, ro, so = case["backend"], case["rhs_order"], case["scheme_order"]
     ctx = {"text": text, "backend": backend, "rhs_order": ro, "scheme_order": so, "remove_unused": bool(case.get("remove_unused"))}
